@@ -391,10 +391,13 @@ pub fn write_plan(env: &RealEnv, w: &World, inv: &RInv, rng: &mut Rng) {
             o.set("signal", J::i(*sig));
             o.set("signal_shell", J::Bool(*shell));
         }
-        if s.discovers && !inv.faults.contains_key(&s.id) {
+        if s.discovers {
             if let Some(d) = &s.depfile {
-                o.set("depfile", J::strs([d.clone(), depfile_text(s, rng)]));
+                if !inv.faults.contains_key(&s.id) {
+                    o.set("depfile", J::strs([d.clone(), depfile_text(s, rng)]));
+                }
             } else if s.msvc {
+                // a failing compiler prints its include notes too
                 o.set("showincludes", J::strs(s.extra_reads.iter().cloned()));
                 o.set("plain_output", J::strs([format!("{}: compiling", s.id)]));
             }
